@@ -99,9 +99,20 @@ def sym_int(x):
 EXP_CHOICES = None      # when set (a tuple of rationals in (0,1]), exp() picks one of them by symbolic choice
 
 
+def exp_calls(bump=False):
+  """number of exp() evaluations on the current path"""
+  E = _E()
+  if E is None: return 0
+  st = E.__dict__.setdefault('_exp_calls', [None, 0])
+  if st[0] is not E.trace: st[0] = E.trace; st[1] = 0
+  if bump: st[1] += 1
+  return st[1]
+
+
 def sym_exp(x):
   """exp(x) for x <= 0 (the only use: EMA weight exp(-dt/W)): a fresh w in (0,1], w = 1 iff x = 0"""
   E = _E()
+  exp_calls(bump=True)
   if EXP_CHOICES and isinstance(x, (SymReal, Exact)):
     # linear variant: the weight is one of a few concrete values (1 stands for dt = 0); keeps the EMA arithmetic linear
     rest = [Fraction(c) for c in EXP_CHOICES if Fraction(c) != 1]
